@@ -414,9 +414,20 @@ def clause11_fetcher_table(ctx, P):
         dom = g.dominators()
         exits = [b for b in range(g.nblocks) if g.term_inst(b).op == "ret"]
         okw = any(all(h in dom[b] for b in exits) for h in loops)
+    # ... and inside the walk no peer is passed over: the per-peer search dominates the loop latch
+    cs_ = g.calls("find_fetchers_for_element_in_peer")
+    if okw and cs_:
+        lp = {h: body for h, body in loops.items() if any(c.block in body for c in cs_)}
+        if len(lp) == 1:
+            (h_, body_), = lp.items()
+            dom_ = g.dominators()
+            latches_ = [b for b in body_ if h_ in g.succs[b]]
+            okw = all(any(c.block in dom_[l] for c in cs_) for l in latches_)
+        else:
+            okw = False
     ctx.ob("C01.2 R-LOOP", g, "every-peer-is-asked-on-every-path", okw,
-           "find_fetchers_for_element() can return without walking the peers (an early exit on some global state): elements added while "
-           "that state is off are never announced or attached, their later changes and removes are lost too")
+           "find_fetchers_for_element() can return without walking the peers, or passes over some peer inside the walk (the owner, say): "
+           "elements added then are never announced or attached for the fetches concerned, their later changes and removes are lost too")
 
 
 def run(ctx):
